@@ -57,7 +57,7 @@ func newBWorld() *bWorld {
 	w.msgs = msgs
 	mk := func(name, svc, route string) protoreflect.FileDescriptor {
 		f := dyn.File{Name: name, Pkg: "vb", Deps: []protoreflect.FileDescriptor{msgs}, Services: []dyn.Service{{Name: svc, Methods: []dyn.Method{
-			{Name: "M1", In: "Req", Out: "Rsp", Rule: &dyn.Rule{Kind: "get", Path: route + "/{s}"}},
+			{Name: "M1", In: "Req", Out: "Rsp", Rule: &dyn.Rule{Kind: "get", Path: route + "/{s}", Add: []dyn.Rule{{Kind: "get", Path: route + "alt/{s}"}, {Kind: "delete", Path: route + "/{s}"}}}},
 			{Name: "M2", In: "Req", Out: "Rsp", Rule: &dyn.Rule{Kind: "post", Path: route, Body: "*"}},
 		}}}}
 		fd, reg, err := f.Build()
@@ -343,6 +343,26 @@ func (w *bWorld) probes() []c11Probe {
 				}
 				return "", r.Code, ""
 			}},
+			c11Probe{name: "GET " + route + "alt/x (additional binding)", svc: svc, run: func(m http.Handler) (string, int, string) {
+				r := serveSimple(m, "GET", route+"alt/x", "")
+				if r.Panicked {
+					return "", 0, r.Panic
+				}
+				if r.Code == 200 {
+					return decode(r.Body, true, "/vb."+svc+"/M1"), r.Code, ""
+				}
+				return "", r.Code, ""
+			}},
+			c11Probe{name: "DELETE " + route + "/x (additional binding, other verb)", svc: svc, run: func(m http.Handler) (string, int, string) {
+				r := serveSimple(m, "DELETE", route+"/x", "")
+				if r.Panicked {
+					return "", 0, r.Panic
+				}
+				if r.Code == 200 {
+					return decode(r.Body, true, "/vb."+svc+"/M1"), r.Code, ""
+				}
+				return "", r.Code, ""
+			}},
 			c11Probe{name: "POST /vb." + svc + "/M2 (implicit)", svc: svc, run: func(m http.Handler) (string, int, string) {
 				r := doHTTP(m, "POST", "/vb."+svc+"/M2", "", http.Header{"Content-Type": {"application/json"}}, reqBody{Data: []byte("{}"), CL: -2})
 				if r.Panicked {
@@ -489,7 +509,7 @@ func runC11(c *Ctx) {
 	if c.Thorough() {
 		maxDepth = 8
 	}
-	r.Rule(fmt.Sprintf("breadth-first search over histories of {RegisterService(local S1), RegisterConn(b1:S1 | b2:S1+S2 | b3:S2), DropConn(b1|b2|b3), b2 drops S2 and re-registers, b2 offers S2 again and re-registers, DropConn(never registered)} to depth %d (or closure of the state set); a state is the shortest history reaching it, re-executed on a fresh Mux with fresh scripted back-ends; states are merged on (reference registry, canonical fingerprint of the implementation snapshot); after every transition 6 probes (HTTP rule route, implicit route, gRPC × 2 services) × every handler pick of rand.Intn", maxDepth))
+	r.Rule(fmt.Sprintf("breadth-first search over histories of {RegisterService(local S1), RegisterConn(b1:S1 | b2:S1+S2 | b3:S2), DropConn(b1|b2|b3), b2 drops S2 and re-registers, b2 offers S2 again and re-registers, DropConn(never registered)} to depth %d (or closure of the state set); a state is the shortest history reaching it, re-executed on a fresh Mux with fresh scripted back-ends; states are merged on (reference registry, canonical fingerprint of the implementation snapshot); after every transition 10 probes (HTTP rule route, two additional bindings, implicit route, gRPC × 2 services) × every handler pick of rand.Intn", maxDepth))
 	r.Assume("back-ends are scripted (never-dialled grpc.ClientConn whose interceptors answer reflection from descriptors and data calls from a script); validated against real grpc-go servers by the conformance pass", "RegisterService of the same local service twice is not in the alphabet")
 	w := newBWorld()
 	probes := w.probes()
